@@ -296,7 +296,7 @@ impl<'a> Gen<'a> {
             3 => 990 + self.rng.below(10) as u32,
             _ => self.rng.below(1001) as u32,
         };
-        Fault { kind, at_permille }
+        Fault { kind, at_permille, persist: self.rng.chance(1, 2) }
     }
 
     pub fn strategy(&mut self) -> Strategy {
